@@ -26,6 +26,8 @@ def tu_for(tracking):
     s += 'namespace vf { auto root_eol(const %s& in, const position& p) { return in.end_of_line( p ); } }\n' % it
     if tracking == 'eager':
         s += 'namespace vf { auto root_bolcc(const InE_cr_crlf& in, const position& p) { return in.begin_of_line( p ); } }\n'
+        s += 'namespace vf { auto root_eolcc(const InE_cr_crlf& in, const position& p) { return in.end_of_line( p ); } }\n'
+        s += 'namespace vf { auto root_eollf(const InE_lf& in, const position& p) { return in.end_of_line( p ); } }\n'
     return s
 
 
@@ -40,6 +42,14 @@ size_t g_k, g_bol, g_byte0, g_col0, g_q;   /* ghost: offset of the position, sta
 EOLSTART_DEF = '''
 /* a line ending of the policy lf_crlf starts at offset q of the window */
 #define EOLSTART(q) (g_buf[q] == '\\n' || (g_buf[q] == '\\r' && (q) + 1 < g_n && g_buf[(q) + 1] == '\\n'))
+'''
+
+# the same for the policies cr_crlf ("\\r" or "\\r\\n": both start with '\\r') and lf
+EOLSTART_CC = '''
+#define EOLSTART(q) (g_buf[q] == '\\r')
+'''
+EOLSTART_LF = '''
+#define EOLSTART(q) (g_buf[q] == '\\n')
 '''
 
 # trusted models of the library searches an implementation of end_of_line may use instead of the until<> loop
@@ -134,6 +144,15 @@ def jobs(tier):
                        stubs=[(r'std::find<char const\*, char>\(', STD_FIND, 'opt')],
                        expect_fail_canary=('canary_exit',),
                        desc='memory_input<%s>::end_of_line(position) (eol policy lf_crlf), real until< at< eolf > > on the lazy sub-input under a loop contract' % tr))
+        # end_of_line() under the policies cr_crlf and lf (same real body, other Eol::match inside eolf)
+        if tr == 'eager':
+            for key, pol, edef in (('eolcc', 'cr_crlf', EOLSTART_CC), ('eollf', 'lf', EOLSTART_LF)):
+                out.append(Job('eol_%s_e' % pol, grp, key, con, ('C19', 'C03'), prelude=prelude(tr) + PRE + edef,
+                               harness=H % {'it': 'vf_' + INPUT_TYPES[('eager', pol)], 'setup': setup + ' __CPROVER_assume(g_byte0 == 0 && g_col0 == 1); vf_exc.pending = 0;', 'call': '$ENTRY(&in, &p)'},
+                               loops={(r'^bool tao::pegtl::internal::until<tao::pegtl::internal::at<tao::pegtl::internal::eolf> ?>::match<', 1, 'opt'): inv},
+                               stubs=[(r'std::find<char const\*, char>\(', STD_FIND, 'opt')],
+                               expect_fail_canary=('canary_exit',),
+                               desc='memory_input<eager, eol::%s>::end_of_line(position), real until< at< eolf > > on the lazy sub-input under a loop contract' % pol))
         # position(): eager = the iterator fields; lazy = bump from the beginning, starting from the initial counters
         if tr == 'eager':
             con = Contract(R('__CPROVER_r_ok(self, sizeof(*self)) && g_n <= MAXN && PTRS_OK_BASE(self) && CNT_OK(self) && __CPROVER_w_ok(_sret, sizeof(*_sret))', 'pre'),
